@@ -127,6 +127,11 @@ def draw_step(draw, sources):
     """sources: list of (id, T, vals, lazy_chain)"""
     src, T, vals, _ = sources[draw(st.integers(0, len(sources) - 1)) if draw(st.integers(0, 2)) else 0]
     spec = draw(ops.draw_op(T, vals, FAMILIES))
+    r = draw(st.integers(0, 19))
+    if r == 0:
+        spec = {"op": "getitem", "items": [{"k": "newaxis"}]}
+    elif r == 1 or (src != -1 and r < 6):
+        spec = {"op": "purelist"}      # depth / parameter queries, preferably on the result of an earlier lazy step
     if spec["op"] in ("field", "fields"):
         names = field_names(T) + ["nope"]
         if spec["op"] == "field":
@@ -136,9 +141,20 @@ def draw_step(draw, sources):
     return {"src": src, "spec": spec}
 
 
+def is_newaxis_only(spec):
+    """a[np.newaxis]: VirtualArray::getitem answers it lazily (added after the seeded change C18-a was missed)"""
+    return spec["op"] == "getitem" and [i.get("k") for i in spec.get("items", [])] == ["newaxis"]
+
+
+def chainable(spec):
+    return spec["op"] in CHAIN_OPS or is_newaxis_only(spec)
+
+
 def chain_result(T, vals, spec):
     """(T', vals') of the lazy-capable operations whose results may feed later steps; None if not modelled here"""
     op = spec["op"]
+    if is_newaxis_only(spec):
+        return ["regular", T, len(vals)], [vals]
     if op == "getitem_range":
         return T, vals[slice(spec["start"], spec["stop"])]
     if op == "carry":
@@ -204,7 +220,7 @@ def virtual_cases(draw):
     for j in range(draw(st.integers(1, SIZE["steps"]))):
         step = draw(draw_step(sources))
         steps.append(step)
-        if step["spec"]["op"] in CHAIN_OPS:
+        if chainable(step["spec"]):
             _, sT, sV, lazy = [s for s in sources if s[0] == step["src"]][0]
             r = chain_result(sT, sV, step["spec"])
             if r is not None:
@@ -708,7 +724,7 @@ def _run_virtual(case, run):
         if not M.same_value(ev, vv):
             raise Violation("value:" + bucket_tail, "%s differs between the virtual array and its eager twin" % op, expected=M.jsonable(ev), observed=M.jsonable(vv))
         compared += 1
-        if op in CHAIN_OPS and isinstance(eres, L.Content) and isinstance(vres, L.Content) and not isinstance(eres, L.Record):
+        if chainable(spec) and isinstance(eres, L.Content) and isinstance(vres, L.Content) and not isinstance(eres, L.Record):
             esrc[j], vsrc[j] = eres, vres
             lazy_src[j] = bool(lazy_src.get(src)) and op != "carry"
             if isinstance(vres, V.VirtualArray):
